@@ -22,6 +22,7 @@ ASSUMPTIONS = ["registration method in the description is checked up to what con
 MIN_NONTRIVIAL = {"quick": 3000, "thorough": 60000}
 REQUIRED_COUNTERS = {"falsy_managers_in_stacks": {"quick": 200, "thorough": 4000},
                      "exiting_observations": {"quick": 500, "thorough": 10000},
+                     "exit_stack_unwinding_observations": {"quick": 500, "thorough": 10000},
                      "exit_stack_children_checked": {"quick": 3000, "thorough": 60000},
                      "gcm_inner_stacks_checked": {"quick": 3000, "thorough": 60000}}
 SHARD_TIMEOUT = {"quick": 400, "thorough": 5400}
@@ -304,9 +305,25 @@ def worker(spec):
                 if sub is not None:
                     check(c, sub, path + (i,))
 
+    async def stack_exit_suspend():
+        await sus("in-stack-exit")
+
+    def stack_exit_probe():
+        if probe_box.get("armed"):
+            probe_box["armed"] = False
+            probe_box["stack"] = stackscope.extract(probe_box["co"])
+            # judge now: once the stack has unwound, the generators are finished
+            probe_box["judge"](probe_box["stack"])
+
     async def main(node, holder):
         m, exp = await build(node)
         holder["exp"] = exp
+        if holder.get("mode") == "exit-stack":
+            # registered last => runs first when the stack unwinds; by then it has been popped
+            if node[0] == "AES":
+                m.push_async_callback(stack_exit_suspend)
+            else:
+                m.callback(stack_exit_probe)
         if is_async_node(node):
             async with m as x:  # noqa
                 await sus("body")
@@ -319,7 +336,7 @@ def worker(spec):
             res.count("budget_cut")
             break
         node = gen(0, True)
-        mode = rng.choice(("body", "body", "exit-async", "exit-sync"))
+        mode = rng.choice(("body", "body", "exit-async", "exit-sync", "exit-stack", "exit-stack"))
         if mode == "exit-async":
             node = ("agx", node if not is_async_node(node) else ("S", False)) if rng.random() < 0.5 else ("agx", ("S", False))
             if node[1][0] in ("A", "ag1", "AES", "agx"):
@@ -327,8 +344,19 @@ def worker(spec):
         elif mode == "exit-sync":
             inner = node if not is_async_node(node) else ("S", rng.random() < 0.3)
             node = ("gx", inner)
+        elif mode == "exit-stack":
+            # an exit stack observed while it unwinds, with earlier-registered entries still on it
+            k = rng.choice(("ES", "AES"))
+            saved = maxd
+            regs = []
+            for _ in range(rng.randint(1, 4)):
+                sub = gen(1, False)
+                regs.append((rng.choice(("enter_context", "push_cm")), sub))
+                if k == "AES" and rng.random() < 0.4:
+                    regs.append(("enter_async_context", ("ag1", gen(2, True))))
+            node = (k, regs)
         desc = repr(node)
-        holder = {}
+        holder = {"mode": mode}
         co = main(node, holder)
         res.evaluations += 1
         before = len(problems)
@@ -342,6 +370,11 @@ def worker(spec):
         ctxs = st.frames[0].contexts
         if len(ctxs) != 1:
             problems.append(((), "top context count %d" % len(ctxs)))
+        elif mode == "exit-stack":
+            # in the body the probe callback is one more child: compare the others
+            c = ctxs[0]
+            if len(c.children) != len(exp[3]) + 1:
+                problems.append(((), "children count %d != %d registered callbacks" % (len(c.children), len(exp[3]) + 1)))
         else:
             check(ctxs[0], exp, ())
         if size(node) >= 3:
@@ -373,6 +406,36 @@ def worker(spec):
                             problems.append(((), "exiting: generator frame should show 1 context", len(gf.contexts)))
                         else:
                             check(gf.contexts[0], exp[3][0], ("gen",))
+        elif mode == "exit-stack":
+            def judge_unwinding(st2):
+                res.count("exiting_observations")
+                res.count("exit_stack_unwinding_observations")
+                res.nontrivial(interp, desc, "exit-stack")
+                c0 = st2.frames[0].contexts
+                if st2.error:
+                    problems.append(((), "error while the exit stack unwinds", repr(st2.error)))
+                if len(c0) != 1 or not c0[0].is_exiting:
+                    problems.append(((), "unwinding exit stack: top context missing or not is_exiting"))
+                else:
+                    # the entries that are still registered are not exiting: full unfolding required
+                    check(c0[0], exp, ("unwinding",))
+                    for ch in c0[0].children:
+                        if getattr(ch, "is_exiting", False):
+                            problems.append(((), "a still-registered entry of an unwinding exit stack is reported as exiting"))
+
+            if node[0] == "AES":
+                v2 = co.send(None)
+                if v2 == "in-stack-exit":
+                    with warnings.catch_warnings(record=True) as w:
+                        warnings.simplefilter("always")
+                        judge_unwinding(stackscope.extract(co))
+            else:
+                probe_box.update(armed=True, co=co, stack=None, judge=judge_unwinding)
+                try:
+                    co.send(None)
+                except StopIteration:
+                    pass
+                probe_box["armed"] = False
         elif mode == "exit-sync":
             probe_box.update(armed=True, co=co, stack=None)
             try:
